@@ -284,7 +284,111 @@ def _verdicts(real, canary):
     return out
 
 
+def _all_shapes(max_np=3, max_nc=3):
+    import itertools
+    for np_ in range(0, max_np + 1):
+        for hd in itertools.product([False, True], repeat=np_):
+            hd3 = list(hd) + [False] * (3 - np_)
+            for nc in range(0, max_nc + 1):
+                for ch in itertools.product(range(0, np_ + 2), repeat=nc):   # 0 = positional, k = name of parameter k, np_+1 = unknown name
+                    ch4 = [min(c, 4) if c <= np_ else 4 for c in ch] + [0] * (4 - nc)
+                    yield dict(np=np_, has_default=hd3, nc=nc, choice=ch4)
+
+
+def cli_standin(reason):
+    """Bounded stand-in used ONLY when the resolver functions can no longer be sliced (they left the reach of the
+    function-level check): every call shape of arity <= 3 with <= 3 arguments, on the real CLI.  Well-formed calls are
+    batched into one program per callee kind (free function, struct constructor) and must print the values of the positional
+    call with defaults filled in; each listed misuse (arity <= 2, <= 2 arguments) must be rejected, no host panic anywhere."""
+    t0 = time.time()
+    good, bad = [], []
+    for sh in _all_shapes():
+        kinds, want = _classify(sh)
+        if not kinds:
+            good.append((sh, want))
+        elif "excess positional" not in kinds and sh['np'] <= 2 and sh['nc'] <= 2:
+            bad.append((sh, kinds))
+    mism = []
+    for kind in ("fn", "struct"):
+        sigs, calls, wants = {}, [], []
+        for sh, want in good:
+            np_, hd = sh['np'], sh['has_default']
+            if kind == "struct" and np_ == 0:
+                continue
+            key = (np_, tuple(hd[:np_]))
+            if key not in sigs:
+                name = "%s%d_%s" % ("f" if kind == "fn" else "S", np_, "".join("d" if x else "r" for x in hd[:np_]))
+                if kind == "fn":
+                    params = ", ".join("%s: int%s" % (NAMES[i], " = %d" % (100 + i) if hd[i] else "") for i in range(np_))
+                    body = " .. \",\" .. ".join(NAMES[i] for i in range(np_)) if np_ else "\"\""
+                    sigs[key] = (name, "fn %s(%s) -> string {\n  \"\" .. %s\n}\n" % (name, params, body))
+                else:
+                    fields = "".join("    %s: int%s\n" % (NAMES[i], " = %d" % (100 + i) if hd[i] else "") for i in range(np_))
+                    sigs[key] = (name, "type %s = {\n%s}\n" % (name, fields))
+            name = sigs[key][0]
+            args = ", ".join(("%s = %d" % (NAMES[sh['choice'][j] - 1], 10 + j)) if sh['choice'][j] else str(10 + j) for j in range(sh['nc']))
+            if kind == "fn":
+                calls.append("println(%s(%s))" % (name, args))
+            else:
+                calls.append("let v%d = %s(%s)\nprintln(\"\" .. %s)" % (len(calls), name, args, " .. \",\" .. ".join("v%d.%s" % (len(calls), NAMES[i]) for i in range(np_))))
+            wants.append(",".join(str(x) for x in want))
+        prog = "".join(v[1] for v in sigs.values()) + "\n".join(calls) + "\n"
+        out, err, rc = abra_cli.run_program(prog, timeout=300)
+        txt = re.sub(r'\x1b\[[0-9;]*m', '', out + err)
+        got = out.split("\n")
+        if rc != 0 or "panicked at" in txt:
+            # find the individual calls the compiler rejects (or that crash)
+            decl = "".join(v[1] for v in sigs.values())
+            found = 0
+            for i, c in enumerate(calls):
+                o1, e1, rc1 = abra_cli.run_program(decl + c + "\n")
+                t1 = re.sub(r'\x1b\[[0-9;]*m', '', o1 + e1)
+                if rc1 != 0 or "panicked at" in t1:
+                    mism.append("%s callee: well-formed call `%s` is rejected or crashes: %s" % (kind, c.split("\n")[0], t1.strip().split("\n")[0][:160]))
+                    found += 1
+                elif o1.split("\n")[0] != wants[i]:
+                    mism.append("%s callee: `%s` gives %s, positional call with defaults gives %s" % (kind, c.split("\n")[0], o1.split("\n")[0], wants[i]))
+                    found += 1
+                if found >= 3:
+                    break
+            if not found:
+                mism.append("%s callee: the batch of %d well-formed calls is rejected or crashes: %s" % (kind, len(calls), txt.strip().split("\n")[0][:200]))
+            continue
+        for i, w in enumerate(wants):
+            g = got[i] if i < len(got) else "<missing>"
+            if g != w:
+                mism.append("%s callee: `%s` gives %s, positional call with defaults gives %s" % (kind, calls[i].split("\n")[0], g, w))
+                if len(mism) > 8:
+                    break
+    nbad = 0
+    for sh, kinds in bad:
+        out, err, rc = abra_cli.run_program(_program(sh))
+        txt = re.sub(r'\x1b\[[0-9;]*m', '', out + err)
+        nbad += 1
+        if "panicked at" in txt:
+            mism.append("misuse %s: host panic on `%s`" % (sorted(kinds), _program(sh).strip().split("\n")[-1]))
+        elif rc == 0 and out.rstrip().endswith("end"):
+            mism.append("misuse %s accepted without diagnostic: `%s`" % (sorted(kinds), _program(sh).strip().split("\n")[-1]))
+    ob = E.Obligation("C18.cli.named_args.sampled", ["C18"], UNIT, "calculate_func_call_order / calculate_named_arg_order via the real CLI",
+                      "bounded: run on the real CLI", E.FAILED if mism else E.DISCHARGED, "; ".join(mism[:6]), time.time() - t0, R, "",
+                      "%d well-formed call shapes (arity <= 3, <= 3 arguments; free functions and struct constructors) and %d misuse shapes "
+                      "(arity <= 2, <= 2 arguments); black-box stand-in, not a proof" % (len(good), nbad),
+                      "stand-in because: %s. A call with named/omitted arguments prints exactly what the positional call with the defaults filled in "
+                      "prints; unknown, duplicate, missing and positional-after-named arguments are rejected; never a host panic" % reason[:300])
+    return [ob], dict(assumptions=["U13 stand-in: the resolver functions could not be sliced (%s); only sampled CLI behaviour is decided" % reason[:200]],
+                      trusted_base=["abra CLI built from the tree under check", "units/u13_named_args _classify (the property's misuse list in Python)"],
+                      checker_cmds=["abra --standard-modules <repo>/modules main.abra (generated programs)"], notes=dict(standin=True, reason=reason[:500]))
+
+
 def run(tier="quick"):
+    try:
+        return _run_sliced(tier)
+    except (E.Undecided, S.SliceError) as ex:
+        # the functions left the reach of the function-level check (data structure or anchor changed): bounded stand-in
+        return cli_standin(str(ex).split("\n")[0])
+
+
+def _run_sliced(tier="quick"):
     sc = E.Scratch("u13")
     try:
         t0 = time.time()
@@ -474,6 +578,8 @@ def replay(ob):
                                      positional call with defaults (or the compiler panics);
       func_call_order.misuse_rejected: confirmed iff the CLI accepts (compiles and runs) a call that is a misuse by the
                                      property's list, or rejects a well-formed call with a diagnostic (or panics)."""
+    if ob.id == "C18.cli.named_args.sampled":
+        return (True if ob.status == E.FAILED else None), dict(note="the obligation itself is a run on the real CLI; failing calls are in verifier_output")
     shapes = _shapes_from_detail(ob.detail)
     info = dict(shapes=len(shapes))
     if not shapes:
